@@ -196,6 +196,9 @@ def guard_of_decl(ev):
     ca = ev.get("cargs") or []
     if not ca:
         return None
+    # std::unique_lock(m, std::try_to_lock / std::defer_lock): the mutex is not (known to be) held after the declaration
+    if any(("try_to_lock" in ((a.get("t") or "") + (a.get("ty") or ""))) or ("defer_lock" in ((a.get("t") or "") + (a.get("ty") or ""))) for a in ca[1:]):
+        return None
     m = ca[0]
     fld = m.get("f")
     if fld:
